@@ -143,6 +143,17 @@ def run_ops(pexpect, ign_hup, ign_int, stopped, ops):
                 elif o[0] == 'close':
                     w.sp.close(force=o[1])
                     r = [2]
+                elif o[0] == 'io':
+                    # any I/O call on an object whose close() has been called: it must fail with an error (not return, not EOF/TIMEOUT)
+                    fn = {0: lambda: w.sp.read_nonblocking(1, 0), 1: lambda: w.sp.send(b'x'), 2: lambda: w.sp.expect_exact([b'x', pexpect.EOF, pexpect.TIMEOUT], timeout=0),
+                          3: lambda: w.sp.sendline(b''), 4: lambda: w.sp.readline()}[o[1]]
+                    try:
+                        v = fn()
+                        r = [9, 'returned %r' % (v,)]
+                    except (pexpect.EOF, pexpect.TIMEOUT) as e:
+                        r = [9, type(e).__name__]
+                    except (ValueError, OSError, pexpect.ExceptionPexpect):
+                        r = [3, 3]
                 else:
                     w.child.env(o[1])
                     r = [2]
@@ -173,8 +184,14 @@ def gen_ops(rng, n):
             ops.append(('kill', rng.choice([1, 2, 9, 15, 18, 10])))
         elif x < 0.60:
             ops.append(('terminate', rng.random() < 0.5))
-        elif x < 0.75:
+        elif x < 0.72:
             ops.append(('close', rng.random() < 0.6))
+        elif x < 0.78:
+            # I/O on the object: only after a close() (what it does on an open object belongs to C06-C08)
+            if any(o[0] == 'close' for o in ops):
+                ops.append(('io', rng.randint(0, 4)))
+            else:
+                ops.append(('isalive',))
         elif x < 0.9:
             ops.append(('env', ('exit', rng.choice([0, 1, 2, 5, 127, 255]))))
         else:
@@ -195,6 +212,8 @@ def coq_ops(ops):
             out.append('(OTerminate %s)' % cbool(o[1]))
         elif o[0] == 'close':
             out.append('(OClose %s)' % cbool(o[1]))
+        elif o[0] == 'io':
+            out.append('OIo')
         else:
             out.append('(OEnv (%s %s))' % ('EExit' if o[1][0] == 'exit' else 'ESignalled', cZ(o[1][1])))
     return clist(out)
